@@ -38,6 +38,7 @@ import (
 	"github.com/go-openapi/runtime"
 	"github.com/go-openapi/runtime/logger"
 	"github.com/go-openapi/runtime/middleware"
+	"github.com/go-openapi/runtime/verifhook"
 	"github.com/go-openapi/runtime/yamlpc"
 )
 
@@ -440,6 +441,7 @@ func (r *Runtime) Submit(operation *runtime.ClientOperation) (interface{}, error
 	if err != nil {
 		return nil, err
 	}
+	verifhook.At("cl.submit.built")
 
 	r.clientOnce.Do(func() {
 		r.client = &http.Client{
@@ -447,6 +449,7 @@ func (r *Runtime) Submit(operation *runtime.ClientOperation) (interface{}, error
 			Jar:       r.Jar,
 		}
 	})
+	verifhook.At("cl.submit.clientReady")
 
 	if r.Debug {
 		b, err2 := httputil.DumpRequestOut(req, true)
@@ -489,7 +492,9 @@ func (r *Runtime) Submit(operation *runtime.ClientOperation) (interface{}, error
 		client = r.client
 	}
 	req = req.WithContext(ctx)
+	verifhook.At("cl.submit.beforeDo")
 	res, err := client.Do(req) // make requests, by default follows 10 redirects before failing
+	verifhook.At("cl.submit.afterDo")
 	if err != nil {
 		return nil, err
 	}
